@@ -157,6 +157,7 @@ func (w *Worker) Replay(c Case) Result {
 		settle, wait = 0, 15*time.Millisecond
 	}
 	nsent := 0
+	peerClosed := map[string]bool{}
 	res.Matched = true
 	for _, p := range c.Obs {
 		t := ends[p.Side]
@@ -172,7 +173,11 @@ func (w *Worker) Replay(c Case) Result {
 			ev.Res = classify(t.Send(ctx, m))
 			cancel()
 		case "recv":
-			ctx, cancel := context.WithTimeout(context.Background(), wait)
+			w := wait
+			if c.Cfg.Kind != "inproc" && peerClosed[p.Side] {
+				w = 400 * time.Millisecond // the end of the stream must get here, however busy the machine is
+			}
+			ctx, cancel := context.WithTimeout(context.Background(), w)
 			e, err := t.Receive(ctx)
 			cancel()
 			if err == nil {
@@ -186,6 +191,11 @@ func (w *Worker) Replay(c Case) Result {
 				ev.Res = classify(err)
 			}
 		case "close":
+			other := "A"
+			if p.Side == "A" {
+				other = "B"
+			}
+			peerClosed[other] = true
 			ev.Res = classify(t.Close())
 			if ev.Res == "timeout" {
 				ev.Res = "err"
